@@ -217,7 +217,7 @@ func reps(r *kit.Rand, n int) []int {
 func gen(w *kit.Out, r *kit.Rand, tier string) {
 	nrep, nrand, nbound := 2, 3, 3
 	if tier == "thorough" {
-		nrep, nrand, nbound = 3, 24, 1000
+		nrep, nrand, nbound = 2, 16, 1000
 	}
 	bt := boundary()
 	// quick: a seeded subset of the boundary table (the corpus pins the rest); thorough: all of it
@@ -235,7 +235,11 @@ func gen(w *kit.Out, r *kit.Rand, tier string) {
 	for i := 0; i < nrand; i++ {
 		g := randSpec(r.Fork(), tier == "thorough")
 		w.Case(fmt.Sprintf("r%d", i))
-		for _, rep := range reps(r.Fork(), nrep) {
+		nr := nrep
+		if tier == "thorough" {
+			nr = 3
+		}
+		for _, rep := range reps(r.Fork(), nr) {
 			w.Op("%s", g.line(rep))
 		}
 	}
